@@ -87,7 +87,10 @@ def explore(chk):
                             elif n[0] == "B": ns.append(("B",))
                             else:
                                 # the single-positioning writer gives every node a layout, so every opening style node writes a span (region=...)
-                                ns.append(("S", n[1], bool(n[2].get("italics")) or kind == "single", bool(n[2].get("bold")), bool(n[2].get("underline"))))
+                                # the SAMI writer copies every rule it does not know into the style attribute, so any non-empty
+                                # content (a 'classes' list, italics False) opens a span there; only the flag is compared here
+                                ns.append(("S", n[1], bool(n[2].get("italics")) or kind == "single" or (kind == "sami" and bool(n[2])),
+                                           bool(n[2].get("bold")), bool(n[2].get("underline"))))
                         doc.append(" ".join(capio.enc_node_abs(x) for x in ns) if ns else "_")
                 flag_ops[(hi, oi)] = b.add("world.flag", "dfxp" if kind == "single" else kind, "1", "|".join(doc) if doc else "[]")
     flags_out = b.run() if chk.driver_ok else None
